@@ -148,7 +148,7 @@ class Spec:
                         while q.get("k") == "Deref":
                             q = q["p"]
                         if q.get("k") == "Bind":
-                            self.arg_nodes[q["id"]] = a_
+                            self.arg_nodes[(c["path"], q["id"])] = a_
                         if cc is not None:
                             self.bind(p_["p"], cc, env2)
                     return self.cev(c["body"], env2, depth + 1)
@@ -364,6 +364,8 @@ class Spec:
                     c = self.cev(a_, env, depth)
                     if c is not None and p_.get("p"):
                         self.bind(p_["p"], c, env2)
+                    if p_.get("p") and p_["p"].get("k") == "Bind":
+                        self.arg_nodes[(g["path"], p_["p"]["id"])] = a_     # local ids are unique per function only
                 before = len(out)
                 self._reach(g["body"], env2, out, depth + 1)
                 for x in out[before:]:
